@@ -1,4 +1,6 @@
 //! Runtime-monitoring harness for minidump-writer (see /verif/DESIGN.md).
+pub mod dest;
 pub mod props;
 pub mod report;
 pub mod rng;
+pub mod util;
